@@ -1,4 +1,78 @@
-From Coq Require Import List NArith.
-Theorem c09_placeholder : (1 + 1 = 2)%N.
-Proof. reflexivity. Qed.
-Print Assumptions c09_placeholder.
+(* C09  Reusing disk space never damages live entries and never stalls writers.
+   Block manager model (Disk/BlockMgr.v): every event sequence of "a writer asks for a block / a block is finished /
+   a reclaim is done", any picker.  Entry level (one-key model, Hybrid/Engine.v): reclaim and reinsertion. *)
+From Coq Require Import List NArith Bool.
+From FV Require Disk.BlockMgr Disk.BlockMgrProofs.
+From FV Require Import Hybrid.Engine Hybrid.EngineInv Hybrid.EngineThms.
+Import ListNotations.
+Open Scope N_scope.
+
+(* every block is clean, being written, evictable or being reclaimed: exactly one of them, at all times *)
+Theorem c09_blocks_partitioned : forall c blocks l,
+  NoDup blocks ->
+  NoDup (BlockMgr.all_blocks (BlockMgr.brun c (BlockMgr.init_b blocks) l)) /\
+  (forall b, In b (BlockMgr.all_blocks (BlockMgr.brun c (BlockMgr.init_b blocks) l)) <-> In b blocks).
+Proof. exact BlockMgrProofs.blocks_partitioned. Qed.
+Print Assumptions c09_blocks_partitioned.
+
+(* a block being written is handed to nobody else, is not evictable (cannot be picked) and is not being reclaimed *)
+Theorem c09_writing_exclusive : forall c blocks l b,
+  NoDup blocks -> In b (BlockMgr.writing (BlockMgr.brun c (BlockMgr.init_b blocks) l)) ->
+  ~ In b (BlockMgr.clean (BlockMgr.brun c (BlockMgr.init_b blocks) l)) /\
+  ~ In b (BlockMgr.evictable (BlockMgr.brun c (BlockMgr.init_b blocks) l)) /\
+  ~ In b (BlockMgr.reclaiming (BlockMgr.brun c (BlockMgr.init_b blocks) l)) /\
+  NoDup (BlockMgr.writing (BlockMgr.brun c (BlockMgr.init_b blocks) l)).
+Proof. exact BlockMgrProofs.writing_exclusive. Qed.
+Print Assumptions c09_writing_exclusive.
+
+(* writers always eventually obtain a clean block: whenever one waits, a reclaim is running (unless every block is being
+   written, excluded by the configuration check writers < blocks) ... *)
+Theorem c09_waiting_writer_is_served : forall c blocks l,
+  (1 <= BlockMgr.threshold c)%nat -> (1 <= BlockMgr.concurrency c)%nat -> NoDup blocks ->
+  let s := BlockMgr.brun c (BlockMgr.init_b blocks) l in
+  BlockMgr.waiters s <> [] -> (length (BlockMgr.writing s) < length blocks)%nat -> BlockMgr.reclaiming s <> [].
+Proof. exact BlockMgrProofs.waiting_writer_is_served. Qed.
+Print Assumptions c09_waiting_writer_is_served.
+
+(* ... and the block it frees goes to a waiter, not back to the queue *)
+Theorem c09_reclaim_done_serves_waiter : forall c s b ch f ws,
+  In b (BlockMgr.reclaiming s) -> BlockMgr.waiters s = f :: ws ->
+  BlockMgr.waiters (BlockMgr.bstep c s (BlockMgr.BReclaimDone b ch)) = ws /\
+  BlockMgr.grants (BlockMgr.bstep c s (BlockMgr.BReclaimDone b ch)) = BlockMgr.grants s ++ [(f, b)] /\
+  In b (BlockMgr.writing (BlockMgr.bstep c s (BlockMgr.BReclaimDone b ch))).
+Proof. exact BlockMgrProofs.reclaim_done_serves_waiter. Qed.
+Print Assumptions c09_reclaim_done_serves_waiter.
+
+(* FIFO picking (the default pickers in a run without deletes): blocks are reclaimed oldest-filled first -
+   the blocks finished so far are exactly those whose reclaim started, in that order, followed by the evictable ones *)
+Theorem c09_fifo_reclaim_order : forall c blocks l,
+  BlockMgr.fifo c = true ->
+  let s := BlockMgr.brun c (BlockMgr.init_b blocks) l in
+  BlockMgr.flog s = BlockMgr.rlog s ++ BlockMgr.evictable s.
+Proof. exact BlockMgrProofs.fifo_reclaim_order. Qed.
+Print Assumptions c09_fifo_reclaim_order.
+
+(* an entry is either loadable intact or a miss: a reclaim only removes index entries (sequence-guarded) and copies;
+   lookups stay correct in every interleaving with reclaim (the C01 invariant is preserved by the reclaim step) *)
+Theorem c09_reclaim_keeps_lookups_correct : forall c s b, KInv c s -> KInv c (do_reclaim c s b).
+Proof. exact kinv_reclaim. Qed.
+Print Assumptions c09_reclaim_keeps_lookups_correct.
+
+(* entries selected by the reinsertion filter survive their block's reclaim *)
+Theorem c09_reinserted_entry_survives : forall c s v sq b b' pre post,
+  bug_rr c = false -> reins c = true ->
+  kmem s = None -> kkeep s = None -> kq s = [] -> ki s = [] ->
+  kidx s = Some (IAddr sq v b) -> kdisk s = pre ++ (v, sq, b) :: post ->
+  (forall x, In x pre -> snd x <> b) -> (forall x, In x post -> snd x <> b) ->
+  lookup_now s = Some v /\ lookup_now (drain_all c b' (do_reclaim c s b)) = Some v.
+Proof. exact reinserted_entry_survives. Qed.
+Print Assumptions c09_reinserted_entry_survives.
+
+Example c09_nonvacuous :
+  let c := BlockMgr.mkBC 1 1 true in
+  let s := BlockMgr.brun c (BlockMgr.init_b [0; 1; 2; 3])
+             [BlockMgr.BGet 0 0; BlockMgr.BGet 0 0; BlockMgr.BFinish 0 0; BlockMgr.BGet 0 0; BlockMgr.BFinish 1 0;
+              BlockMgr.BGet 0 0; BlockMgr.BFinish 2 0; BlockMgr.BGet 0 0; BlockMgr.BGet 0 0] in
+  BlockMgr.waiters s = [0; 0] /\ BlockMgr.reclaiming s = [0] /\ BlockMgr.rlog s = [0] /\
+  map snd (BlockMgr.grants (BlockMgr.bstep c s (BlockMgr.BReclaimDone 0 0))) = [0; 1; 2; 3; 0].
+Proof. vm_compute. repeat split. Qed.
